@@ -423,8 +423,8 @@ Proof.
   - destruct (nth_error (snaps (getn src cl)) k) as [s|] eqn:Es; [|now left].
     destruct (Nat.eq_dec m n) as [->|Hne]; [|left; now rewrite getn_upd_other].
     rewrite getn_upd_same. unfold getn. destruct (nth_error (nodes cl) n) as [x|] eqn:E; [|left; now rewrite nth_overflow by (now apply nth_error_None)].
-    rewrite (nth_error_nth _ _ node0 E). unfold restore. destruct (crashed x); [now left|].
-    right. right. left. exists src, k, s. auto.
+    rewrite (nth_error_nth _ _ node0 E). destruct (Nat.eqb src n); [unfold restore|unfold install]; (destruct (crashed x); [now left|]);
+      right; right; left; exists src, k, s; auto.
   - destruct (Nat.eq_dec m n) as [->|Hne]; [|left; now rewrite getn_upd_other].
     rewrite getn_upd_same. unfold getn. destruct (nth_error (nodes cl) n) as [x|] eqn:E; [|left; now rewrite nth_overflow by (now apply nth_error_None)].
     right. right. right. split; reflexivity.
@@ -509,6 +509,16 @@ Proof.
   - now rewrite restore_onto_id.
 Qed.
 
+Lemma good_install lg nd s : node_good lg nd -> snap_good lg s -> (forall l, pending nd = Some l -> (l <= fst s)%nat) ->
+  node_good lg (install s nd).
+Proof.
+  intros [H1 H2 H3 H4 H5 H6 H7 H8] [S1 [S2 S3]] Hf. unfold install. rewrite H2.
+  constructor; simpl; auto.
+  - now rewrite restore_onto_id.
+  - now rewrite restore_onto_id.
+  - apply Forall_app. split; auto. constructor; auto. repeat split; auto.
+Qed.
+
 Lemma good_restart lg nd : node_good lg nd -> node_good lg (restart nd).
 Proof.
   intros [H1 H2 H3 H4 H5 H6 H7 H8]. unfold restart. constructor; simpl; auto.
@@ -545,12 +555,14 @@ Proof.
   - split; simpl; auto. apply Forall_upd; auto. intros x _ Gx. now apply good_persist.
   - destruct (nth_error (snaps (getn src cl)) k) as [s|] eqn:Hs; [|split; auto].
     split; simpl; auto. apply Forall_upd; auto. intros x Hx Gx.
-    rewrite (getn_nth n cl x Hx) in Hf. apply good_restore; auto.
-    + destruct (getn_cases src cl) as [[y [Hy Ey]]|[_ Ey]]; rewrite Ey in Hs.
+    rewrite (getn_nth n cl x Hx) in Hf.
+    assert (Hsg : snap_good (log cl) s).
+    { destruct (getn_cases src cl) as [[y [Hy Ey]]|[_ Ey]]; rewrite Ey in Hs.
       * rewrite Forall_forall in HN. specialize (HN y (nth_error_In _ _ Hy)).
         destruct HN as [_ _ _ _ _ _ _ G8]. rewrite Forall_forall in G8. apply G8. eapply nth_error_In; eauto.
-      * simpl in Hs. destruct k; discriminate.
-    + intros l Hl. rewrite Hl in Hf. now apply Nat.leb_le.
+      * simpl in Hs. destruct k; discriminate. }
+    assert (Hpl : forall l, pending x = Some l -> (l <= fst s)%nat) by (intros l Hl; rewrite Hl in Hf; now apply Nat.leb_le).
+    destruct (Nat.eqb src n); [apply good_restore|apply good_install]; auto.
   - split; simpl; auto. apply Forall_upd; auto. intros x _ Gx. now apply good_restart.
 Qed.
 
@@ -598,7 +610,8 @@ Proof.
   - split; simpl; auto. apply Forall_upd; auto. intros x _ [G1 [G2 G3]]. unfold snap_persist.
     destruct (pending x); repeat split; auto.
   - destruct (nth_error (snaps (getn src cl)) k) as [s|]; [|split; auto].
-    split; simpl; auto. apply Forall_upd; auto. intros x _ [G1 [G2 G3]]. unfold restore. rewrite G2. repeat split; auto.
+    split; simpl; auto. apply Forall_upd; auto. intros x _ [G1 [G2 G3]].
+    destruct (Nat.eqb src n); [unfold restore|unfold install]; rewrite G2; repeat split; auto.
   - split; simpl; auto. apply Forall_upd; auto. intros x _ _. repeat split; auto.
 Qed.
 Lemma run_sane es : forall cl, forallb good_op (log cl) = true -> Forall node_sane (nodes cl) -> forallb clean_ev es = true ->
@@ -694,6 +707,15 @@ Proof.
   - intros l Hl. rewrite Hp in Hl. discriminate.
 Qed.
 
+Lemma strict_install lg nd s : node_strict lg nd -> snap_strict lg s -> pending nd = None -> node_strict lg (install s nd).
+Proof.
+  intros [H1 H2 H3 H4 H5 H6 H7] [S1 S2] Hp. unfold install. rewrite H2.
+  constructor; simpl; auto.
+  - rewrite restore_onto_id; auto. rewrite S2. apply sorted_replay.
+  - intros l Hl. rewrite Hp in Hl. discriminate.
+  - apply Forall_app. split; auto. constructor; auto. split; auto.
+Qed.
+
 Lemma strict_restart lg nd : node_strict lg nd -> node_strict lg (restart nd).
 Proof.
   intros [H1 H2 H3 H4 H5 H6 H7]. unfold restart. constructor; simpl; auto.
@@ -724,12 +746,14 @@ Proof.
   - split; simpl; auto. apply Forall_upd; auto. intros x _ Gx. now apply strict_persist.
   - destruct (nth_error (snaps (getn src cl)) k) as [s|] eqn:Hs; [|split; auto].
     split; simpl; auto. apply Forall_upd; auto. intros x Hx Gx.
-    rewrite (getn_nth n cl x Hx) in Hf. apply strict_restore; auto.
-    + destruct (getn_cases src cl) as [[y [Hy Ey]]|[_ Ey]]; rewrite Ey in Hs.
+    rewrite (getn_nth n cl x Hx) in Hf.
+    assert (Hss : snap_strict (log cl) s).
+    { destruct (getn_cases src cl) as [[y [Hy Ey]]|[_ Ey]]; rewrite Ey in Hs.
       * rewrite Forall_forall in HN. specialize (HN y (nth_error_In _ _ Hy)).
         destruct HN as [_ _ _ _ _ _ G7]. rewrite Forall_forall in G7. apply G7. eapply nth_error_In; eauto.
-      * simpl in Hs. destruct k; discriminate.
-    + destruct (pending x); [discriminate|reflexivity].
+      * simpl in Hs. destruct k; discriminate. }
+    assert (Hpn : pending x = None) by (destruct (pending x); [discriminate|reflexivity]).
+    destruct (Nat.eqb src n); [apply strict_restore|apply strict_install]; auto.
   - split; simpl; auto. apply Forall_upd; auto. intros x _ Gx. now apply strict_restart.
 Qed.
 
@@ -755,13 +779,31 @@ Proof. intros Hc Hf Hn. destruct (strict_node k es n nd Hc Hf Hn) as [_ _ _ G4 G
 Lemma restore_merge_nil_id c : sorted c -> restore_merge [] c = c.
 Proof. intros H. exact (restore_onto_id [] c H). Qed.
 
+(* the newest snapshot of a store *)
+Lemma newest_in l : forall s, newest l = Some s -> In s l.
+Proof. induction l as [|x r IH]; intros s H; [discriminate|]. cbn [newest] in H. destruct (newest r) as [t|] eqn:E.
+  - destruct (Nat.ltb (fst t) (fst x)); injection H as <-; [now left|right; now apply IH].
+  - injection H as <-. now left. Qed.
+Lemma newest_none l : newest l = None -> l = [].
+Proof. destruct l as [|x r]; [reflexivity|]. cbn [newest]. destruct (newest r) as [t|]; [destruct (Nat.ltb (fst t) (fst x))|]; discriminate. Qed.
+Lemma newest_max l : forall s t, newest l = Some s -> In t l -> (fst t <= fst s)%nat.
+Proof. induction l as [|x r IH]; intros s t H Hin; [destruct Hin|]. cbn [newest] in H. destruct (newest r) as [u|] eqn:E.
+  - destruct (Nat.ltb_spec (fst u) (fst x)) as [Hlt|Hge]; injection H as <-; destruct Hin as [->|Hin]; try lia.
+    + specialize (IH u t eq_refl Hin). lia.
+    + exact (IH u t eq_refl Hin).
+  - injection H as <-. apply newest_none in E. subst r. destruct Hin as [->|[]]. lia. Qed.
+Lemma newest_label l : fold_right Nat.max 0%nat (map fst l) = match newest l with Some s => fst s | None => 0%nat end.
+Proof. induction l as [|x r IH]; [reflexivity|]. cbn [map fold_right newest]. rewrite IH. destruct (newest r) as [t|].
+  - destruct (Nat.ltb_spec (fst t) (fst x)); lia.
+  - lia. Qed.
+
 Lemma offline_l k es n nd : forallb clean_ev es = true -> run_ok ev_atomic (init k) es = true ->
   nth_error (nodes (run (init k) es)) n = Some nd ->
-  offline nd = match rev (snaps nd) with [] => [] | s :: _ => replay (firstn (fst s) (log (run (init k) es))) end.
+  offline nd = match newest (snaps nd) with None => [] | Some s => replay (firstn (fst s) (log (run (init k) es))) end.
 Proof.
   intros Hc Hf Hn. destruct (strict_node k es n nd Hc Hf Hn) as [_ _ _ _ _ _ G7].
-  unfold offline. destruct (rev (snaps nd)) as [|s r] eqn:E; auto.
-  assert (Hin : In s (snaps nd)) by (apply in_rev; rewrite E; now left).
+  unfold offline. destruct (newest (snaps nd)) as [s|] eqn:E; auto.
+  pose proof (newest_in _ _ E) as Hin.
   rewrite Forall_forall in G7. destruct (G7 s Hin) as [_ S2].
   rewrite restore_merge_nil_id; auto. rewrite S2. apply sorted_replay.
 Qed.
@@ -913,7 +955,7 @@ Proof. vm_compute. repeat split; reflexivity. Qed.
    labelled 2 lacks entry 1; the replica restarts from it, has "applied" the whole log and misses a pin for good *)
 Definition backward_race_events : list mevent :=
   [MCommit (LPin (wpin 0 1)); MApply 1; MSnapReq 1; MPersist 1; MApply 0; MCommit (LPin (wpin 1 1)); MApply 0;
-   MSnapReq 0; MRestore 0 1 0; MPersist 0; MRestart 0; MRestore 0 0 0].
+   MSnapReq 0; MRestore 0 1 0; MPersist 0; MRestart 0; MRestore 0 0 1].
 Lemma backward_race_loses :
   forallb clean_ev backward_race_events = true /\
   let cl := run (init 2) backward_race_events in
